@@ -20,11 +20,11 @@ RULE = ("seeded circuits whose nodes share NodeTemplate / OperatorTemplate objec
         "one override that addresses some but not all nodes sharing a template; distinct = distinct (spec, overrides) hash")
 DECIDING = ['arg_value_checks', 'layout_checks', 'derivatives_compared', 'sibling_circuit_checks', 'template_fingerprint_checks',
             'update_var_scalar', 'update_var_array', 'node_values', 'edge_updates', 'first_row_checks',
-            'population_updates_scalar', 'population_updates_per_unit', 'late_edges_added_in_place']
+            'population_updates_scalar', 'population_updates_per_unit', 'late_edges_added_in_place', 'compiled_before_updates']
 ASSUMPTIONS = ['array values are distributed one per addressed node in declaration (path) order',
                'node_values addresses all nodes matching the node part of the path']
 CASE_TIMEOUT = 180
-FOCUS = ['shared_subcircuit_update', 'node_values_shared_template']
+FOCUS = ['shared_subcircuit_update', 'node_values_shared_template', 'initial_value_update_after_compile']
 
 
 def plan(tier, seed):
@@ -192,6 +192,15 @@ def make_case(case, ctx):
                     kinds.append('edge_updates')
         if not [k_ for k_ in kinds if k_ != 'int_declared_constants']:
             continue
+        # the template has already been compiled once (read-only: in_place=False) when the overrides arrive
+        if want == 'initial_value_update_after_compile' or rnd.random() < 0.3:
+            spec['compile_first'] = True
+            kinds.append('compiled_before_updates')
+            state_upd = [u for u in updates if ref0.kind.get(tuple(u[0].rsplit('/', 2))) == 'state' or
+                         any(ref0.kind.get((t_,) + tuple(u[0].rsplit('/', 2)[1:])) == 'state' for t_ in nodes)]
+            state_nv = [k_ for k_ in node_values if any(ref0.kind.get((t_,) + tuple(k_.rsplit('/', 2)[1:])) == 'state' for t_ in nodes)]
+            if state_upd or state_nv:
+                crisk.add('initial_value_update_after_compile')
         spec['updates'] = updates
         spec['node_values'] = node_values
         spec['edge_updates'] = edge_updates
@@ -229,7 +238,7 @@ def run_case(case, ctx):
            'case_extra': {'case_risk': case.get('case_risk', []), 'kinds': kinds}}
     for k in kinds:
         mech[k] = mech.get(k, 0) + 1
-    base_spec = {k: v for k, v in spec.items() if k not in ('updates', 'node_values', 'edge_updates', 'late_edges', 'late_how')}
+    base_spec = {k: v for k, v in spec.items() if k not in ('updates', 'node_values', 'edge_updates', 'late_edges', 'late_how', 'compile_first')}
     try:
         ref = RefModel(spec)
         ref_base = RefModel(base_spec)
@@ -257,6 +266,12 @@ def run_case(case, ctx):
         from pyrates import CircuitTemplate
         sibling = rebuild_from_objects(base_spec, objs)
         fp_before = tplfp.dumps([tplfp.fingerprint(o) for o in list(objs['ops'].values()) + list(objs['nts'].values())])
+        if spec.get('compile_first'):
+            try:
+                tmpl_nou.get_run_func('pre_vf', step_size=1e-3, vectorize=False, verbose=False, clear=True, in_place=False,
+                                      float_precision='float64')
+            except Exception as e:
+                raise observe.Mismatch(f"loud: first get_run_func(in_place=False) raised {type(e).__name__}: {e}")
         # now apply the overrides to the first circuit through the public API
         for upd in spec.get('updates', []):
             val = np.asarray(upd[1], dtype=float) if isinstance(upd[1], (list, tuple)) else upd[1]
